@@ -171,7 +171,7 @@ def correspond(ctx, exe, n_specs, files=True):
                     recs = binary_records(d)
                     blines.append('B\t' + '\t'.join(toks[3:])); bexp.append((spec, recs))
                     got = impl_read(os.path.join(d, 'model.dat'), orc.mesh_arg('binary', d))
-                    if got is not None and not res['pdat']:
+                    if got is not None and res['pdat'] is None:
                         clines.append('C\t%s\t%s' % (vf.hexs(res['main']), '\t'.join(recs))); cexp.append((spec, got))
             shutil.rmtree(d, ignore_errors=True)
         if files:
